@@ -104,13 +104,20 @@ def first_diff(a: dict, b: dict) -> str | None:
     return None
 
 
-def resume_inprocess(driver: str, text: str, calc_spec: dict, total_steps: int, changes=None):
-    """The documented way: read_json -> Cls.from_dict -> attach calculator -> run."""
+def resume_inprocess(driver: str, text: str, calc_spec: dict, total_steps: int, changes=None, reuse=False):
+    """The documented way: read_json -> Cls.from_dict -> attach calculator -> run.
+    reuse: the loaded dictionary is used twice - a first simulation is rebuilt from it and run to the end, then a second
+    one is rebuilt from the SAME dictionary object; the second is the one judged."""
     from ase.io.jsonio import read_json
     from simkit.world import driver_class
 
     data = read_json(io.StringIO(text))
     cls = driver_class(driver)
+    if reuse:
+        first = cls.from_dict(data)
+        first.atoms.calc = calcs.make_calc(calc_spec)
+        run_traced(first, total_steps - int(first.step_count), None, changes)
+        first.close()
     mc = cls.from_dict(data)
     mc.atoms.calc = calcs.make_calc(calc_spec)
     k = int(mc.step_count)
@@ -176,6 +183,7 @@ class C07(HistoryCampaign):
                 chs.append({"at": rnd.randint(1, max(1, n - 1)), "set": st})
             sc["changes"] = chs
         sc["fresh"] = rnd.random() < (0.04 if tier == "quick" else 0.1)
+        sc["reuse_dict"] = rnd.random() < 0.3
         sc["fresh_first_import"] = rnd.choice(PUBLIC_MODULES)
         return sc
 
@@ -240,6 +248,10 @@ class C07(HistoryCampaign):
         for text, k_seen in sorted(points.items(), key=lambda kv: kv[1]):
             self._judge_point(sc, res, text, ref, n, table, fresh=False)
             res.count("fault.crash_restart_inprocess")
+        if sc.get("reuse_dict") and points and not res.violations:
+            texts = sorted(points, key=lambda t: points[t])
+            self._judge_point(sc, res, texts[len(texts) // 2], ref, n, table, fresh=False, reuse=True)
+            res.count("fault.loaded_dictionary_used_twice")
         if sc.get("fresh") and points and not res.violations:
             texts = sorted(points, key=lambda t: points[t])
             pick = texts[len(texts) // 2]
@@ -247,14 +259,14 @@ class C07(HistoryCampaign):
             res.count("fault.crash_restart_fresh_interpreter")
         return res.pack()
 
-    def _judge_point(self, sc, res, text, ref, n, table, fresh):
+    def _judge_point(self, sc, res, text, ref, n, table, fresh, reuse=False):
         drv = sc["driver"]
         res.count("evaluations")
         try:
             if fresh:
                 k, trace = resume_fresh(sc, text, n)
             else:
-                k, trace = resume_inprocess(drv, text, sc["calc"], n, sc.get("changes"))
+                k, trace = resume_inprocess(drv, text, sc["calc"], n, sc.get("changes"), reuse=reuse)
         except FreshFailure as e:
             res.violations.append(Violation("C07", "resume_failed", f"driver={drv}|type={e.etype}|where={e.where}|recovery=fresh",
                                             e.text, at=f"fresh interpreter, first import {sc.get('fresh_first_import')}"))
@@ -280,7 +292,7 @@ class C07(HistoryCampaign):
             d = first_diff(a, b)
             if d:
                 res.violations.append(Violation(
-                    "C07", "resumed_run_diverges", f"driver={drv}|first_diff={d.split(':')[0]}|recovery={'fresh' if fresh else 'inprocess'}",
+                    "C07", "resumed_run_diverges", f"driver={drv}|first_diff={d.split(':')[0]}|recovery={'fresh' if fresh else 'inprocess_dictionary_used_twice' if reuse else 'inprocess'}",
                     f"table {table}; resumed from the file written at step {k}; step {k + j} differs in {d}: "
                     f"uninterrupted history {a['history']} vs resumed {b['history']}", at=f"k={k} step={k + j}",
                     data={"k": k}))
